@@ -1338,11 +1338,15 @@ _bucket_setstate(Bucket *self, PyObject *state)
         self->size = len;
     }
 
-    for (i = self->len; --i >= 0; ) {
-        DECREF_KEY(self->keys[i]);
-        DECREF_VALUE(self->values[i]);
+    /* Each old entry leaves the bucket before it is released: releasing it
+     * may run arbitrary code (a finalizer, a weakref callback) that looks
+     * at this bucket.
+     */
+    while (self->len > 0) {
+        self->len--;
+        DECREF_KEY(self->keys[self->len]);
+        DECREF_VALUE(self->values[self->len]);
     }
-    self->len = 0;
 
     if (self->next) {
         Py_DECREF(self->next);
